@@ -460,7 +460,7 @@ def inline_unit(unit_json):
             inline_once(u, fd, where[0], where[1], info["ctor_call"], ct, instance, 0, this_obj=obj)
             inlined_into.add(ct["did"])
             obj_classes.add(info["cls"])
-        for _round in range(48 if fd["_objs"] else 24):
+        for _round in range(160):
             calls = inlinable_calls(u, None, fd)
             if not calls:
                 break
